@@ -569,6 +569,10 @@ pub fn run(rep: &mut Report) {
                     c.alph.sub = true;
                     c.alph.defer_pubrel = true;
                     c.alph.send_probes = true;
+                    // set_offline_publish() called at any time, also with the value it already has
+                    if !auto && (thorough || role == RoleK::Client) {
+                        c.alph.toggle_opts = vec![1];
+                    }
                     if !thorough {
                         c.alph.peer_ack_ids = vec![1];
                         c.alph.peer_ids = vec![1];
